@@ -30,9 +30,9 @@ PROPS = {
         "assumptions": ["conditions shorter than 2^31 tokens (i32 parenthesis depth counter)"],
     },
     "C05": {
-        "units": {"front": ["binding_power", "match_ahead", "consume_while", "tokenise"] + FRONT_PARSE},
-        "explanation": "binding-power table pinned (cmp > or > and, not tightest, atoms 0); keyword look-ahead helper proved to test exactly a prefix of the remaining text",
-        "assumptions": [],
+        "units": {"front": ["binding_power", "match_ahead", "consume_while", "tokenise"] + FRONT_PARSE + ["lemma_or_binds_tighter_than_and", "lemma_left_associative", "lemma_not_single_operand", "lemma_parentheses"]},
+        "explanation": "the real parse/parse_expr/parse_led/parse_nud are proved to return, on every condition they accept, exactly p_parse(tokens): a grammar function that consults operators only through the binding powers (binding_power is proved equal to that table); the property's clauses are lemmas over p_parse for symbolic identifiers: or binds tighter than and on either side, equal operators associate to the left, not takes the single following operand (and not not a is a double negation), parentheses override and a parenthesised atom is the atom; the keyword look-ahead helper is proved to test exactly a prefix of the remaining text",
+        "assumptions": ["redundant parentheses around arbitrary sub-expressions: proved for the stated instances, not by general induction", "the tokeniser's full lexing function (keyword vs identifier for every text) is not under a functional contract; termination/panic-freedom and the look-ahead helper are"],
     },
     "C02": {
         "units": {"solver": SOLVER_CORE + ["search", "as_bool", "is_null", "as_str", "as_object", "to_string"]},
